@@ -297,3 +297,62 @@ def rsa_cred_bits(bits, kind="RS256"):
             if k.public_key().public_numbers().n.bit_length() == bits:
                 return k
     return Cred(kind, sk=_load_or_make(f"rsa_{bits}", make))
+
+
+
+# ---- Ed25519 by hand (RFC 8032 reference arithmetic): signatures whose nonce is CHOSEN - still valid signatures of the key ----
+_P25519 = 2 ** 255 - 19
+_L25519 = 2 ** 252 + 27742317777372353535851937790883648493
+_D25519 = -121665 * pow(121666, -1, _P25519) % _P25519
+
+
+def _ed_add(P, Q):
+    A = (P[1] - P[0]) * (Q[1] - Q[0]) % _P25519
+    B = (P[1] + P[0]) * (Q[1] + Q[0]) % _P25519
+    C = 2 * P[3] * Q[3] * _D25519 % _P25519
+    D = 2 * P[2] * Q[2] % _P25519
+    E, F, G, H = B - A, D - C, D + C, B + A
+    return (E * F % _P25519, G * H % _P25519, F * G % _P25519, E * H % _P25519)
+
+
+def _ed_mul(s, P):
+    Q = (0, 1, 1, 0)
+    while s > 0:
+        if s & 1:
+            Q = _ed_add(Q, P)
+        P = _ed_add(P, P)
+        s >>= 1
+    return Q
+
+
+def _ed_base():
+    y = 4 * pow(5, -1, _P25519) % _P25519
+    x2 = (y * y - 1) * pow(_D25519 * y * y + 1, -1, _P25519) % _P25519
+    x = pow(x2, (_P25519 + 3) // 8, _P25519)
+    if (x * x - x2) % _P25519:
+        x = x * pow(2, (_P25519 - 1) // 4, _P25519) % _P25519
+    if x & 1:
+        x = _P25519 - x
+    return (x, y, 1, x * y % _P25519)
+
+
+def _ed_compress(P):
+    zi = pow(P[2], -1, _P25519)
+    x, y = P[0] * zi % _P25519, P[1] * zi % _P25519
+    return (y | ((x & 1) << 255)).to_bytes(32, "little")
+
+
+def ed25519_sign_with_nonce(sk, msg, r):
+    """a VALID Ed25519 signature of `msg` under the private key `sk` (cryptography object) whose per-signature nonce is r instead of the hash-derived one: R = r*B,
+    S = r + H(R || A || M) * a mod L.  r = 0 gives R = the neutral element (a point of small order); every verifier that implements RFC 8032 accepts it."""
+    seed = sk.private_bytes(serialization.Encoding.Raw, serialization.PrivateFormat.Raw, serialization.NoEncryption())
+    h = hashlib.sha512(seed).digest()
+    a = int.from_bytes(h[:32], "little")
+    a &= (1 << 254) - 8
+    a |= 1 << 254
+    B = _ed_base()
+    A = _ed_compress(_ed_mul(a, B))
+    Rs = _ed_compress(_ed_mul(r % _L25519, B)) if r % _L25519 else (1).to_bytes(32, "little")
+    k = int.from_bytes(hashlib.sha512(Rs + A + msg).digest(), "little") % _L25519
+    S = (r + k * a) % _L25519
+    return Rs + S.to_bytes(32, "little")
